@@ -39,7 +39,9 @@ ASSUMPTIONS = [
 
 NAMES = ["a", "b", "c"]
 MAXD = 6
-MAXEV = 4000      # runaway guard: a case whose log grows beyond this is cut (and reported by the oracle)
+MAXLOG = 1500     # callbacks stop running their scripts once the (model-visible) log is longer than this
+MAXEV = 3000      # runaway guard: a case whose visible log grows beyond this is cut (and reported by the oracle)
+VISIBLE = ("add", "kill", "call", "check", "dict", "oof")
 _RIG = {}
 
 
@@ -153,6 +155,9 @@ def run_delay(case):
     def now():
         return int(round((loop.time() - t0) * 1e6))
 
+    def vis():
+        return sum(1 for e in S.log if e[0] in VISIBLE) if len(S.log) > MAXLOG else 0
+
     def scan_kills():
         for u in sorted(S.live):
             if S.handles[u].cancelled():
@@ -174,7 +179,7 @@ def run_delay(case):
         def cb(**kwargs):
             if S.dead:
                 return
-            if len(S.log) > MAXEV:
+            if len(S.log) > MAXEV and vis() > MAXEV:
                 S.dead = True
                 S.log.append(["runaway"])
                 return
@@ -189,7 +194,7 @@ def run_delay(case):
             for k, v in sorted((int(k[1:]), v) for k, v in kwargs.items()):
                 kw += [k, v]
             S.log.append(["call", now(), u, cbid, kw, rn])
-            if S.depth >= MAXD:
+            if S.depth >= MAXD or vis() > MAXLOG:
                 S.log.append(["oof"])
                 return
             S.depth += 1
@@ -319,7 +324,7 @@ def oracle_delay(case, out):
         k = e[0]
         if k == "runaway":
             fail("runaway", "more than %d events in one case: callbacks keep firing" % MAXEV)
-            break
+            return fails
         if k == "ext":
             if e[1] != e[2]:
                 fail("clock", "virtual clock at %d, wanted %d" % (e[2], e[1]))
